@@ -139,6 +139,11 @@ def run_config(arg):
         xp = get_xp(ns)
         lo, hi = LO[:d], HI[:d]
         pop = POPS[pop_id](d, lo, hi)
+        if "affine" in precond or precond == "flow":
+            # non-initial state: the preconditioning transform was fitted before on another population
+            # (the samplers refit it at every iteration)
+            other = POPS[(pop_id + 1) % 3](d, lo, hi)
+            smp.fit_preconditioning_transform(xp.asarray(other))
         smp.fit_preconditioning_transform(xp.asarray(pop))
     except Exception as e:
         from env import exc_site
